@@ -163,7 +163,10 @@ WalkOK == (Rec.op = "walk" /\ Has("entries")) => WalkFrom(Rec.pre, Rec.entries, 
 \* ---- C12: constructors and state <-> map duality
 CtorGroup(name, n) == CASE name = "zero" -> ZeroGroup(n) [] name = "one" -> OneGroup(n)
                         [] name = "ghz" -> GHZGroup(n) [] name = "mixed" -> MixedGroup(n)
-CtorOK == (Rec.op = "ctor" /\ Has("post")) => TGrp(Rec.post) = CtorGroup(Rec.name, Rec.n) /\ Rec.post.r = (IF Rec.name = "mixed" THEN Rec.n ELSE 0)
+\* (post2: the same constructor called again after the caller rotated the first state in place)
+CtorOK == (Rec.op = "ctor" /\ Has("post")) =>
+    /\ TGrp(Rec.post) = CtorGroup(Rec.name, Rec.n) /\ Rec.post.r = (IF Rec.name = "mixed" THEN Rec.n ELSE 0)
+    /\ Has("post2") => TGrp(Rec.post2) = CtorGroup(Rec.name, Rec.n) /\ Rec.post2.r = Rec.post.r
 \* map -> state: rows are the Z-images (stabilizers) then the X-images (destabilizers), signs included;
 \* the state is the map applied to |0..0>; state -> map gives the same map back
 MapToRows(mm) == LET n == Len(mm) \div 2 IN [j \in 1..2 * n |-> IF j <= n THEN mm[2 * j] ELSE mm[2 * (j - n) - 1]]
